@@ -1,7 +1,7 @@
 (* C14: the bookkeeping invariant and its preservation by every edit of the
    Matrix / BO layer. *)
 From QV.Model Require Import Base Matrix Arith.
-From QV.Proofs Require Import BaseProofs KeyProofs ArithProofs TempRange.
+From QV.Proofs Require Import BaseProofs KeyProofs ArithProofs TempRangeQ.
 From Coq Require Import Lia.
 Open Scope Q_scope.
 
